@@ -44,10 +44,18 @@ func (w *World) execCommit(st *Step) *Violation {
 				}
 			}
 		}
+		if st.Sub == "crashmid" && plan != nil {
+			plan.PanicWrite = true
+			w.commitJournal = make(map[RegID][]byte, len(w.Ledger.Regs))
+			for k, v := range w.Ledger.Regs {
+				w.commitJournal[k] = v
+			}
+		}
 		w.Ledger.SetPlan(plan)
 		logStart := len(w.Ledger.Log)
 		firedBefore := w.Ledger.FaultsFired["ledger.write-error"]
 		err := w.commitOnce(st.Flavour, st.Workers)
+		w.commitJournal = nil
 		w.Ledger.SetPlan(nil)
 		w.Ledger.BeginPhase("op", false)
 		fired := w.Ledger.FaultsFired["ledger.write-error"] - firedBefore
